@@ -301,7 +301,7 @@ theorem string_ops_model_is_spec (a b : Bytes) :
     exact SizedStr.cmpWith_zero _ _ lower (fun x y => by simp) a b
   have hc : ss_compare a b = 0 ↔ a = b := by
     rw [SizedStr.ss_compare_eq]
-    have := SizedStr.cmpWith_zero (fun x y => x == y) (fun x y => decide (SizedStr.scB x < SizedStr.scB y)) id (fun x y => by simp) a b
+    have := SizedStr.cmpWith_zero (fun x y => x == y) SizedStr.ucLt id (fun x y => by simp) a b
     simpa using this
   have hs : strCompare a b = 0 ↔ a = b := by
     rw [SizedStr.strCompare_eq_cmpWith]
@@ -321,32 +321,24 @@ theorem string_ops_model_is_spec (a b : Bytes) :
     rw [hc, hs]
 
 open YaraModel.Gen.SizedStr in
-/-- `< <= > >=` on strings: ss_compare orders by C `char`, which is SIGNED on the reference platform; it is the
-    specification's (unsigned, memcmp-like) order when all bytes are below 0x80.  Finding F57: beyond that it is not. -/
-theorem string_order_model_is_spec_partial (a b : Bytes) (ha : ∀ x, x ∈ a → x < 128) (hb : ∀ x, x ∈ b → x < 128) :
-    ss_compare a b = strCompare a b := by
+/-- `< <= > >=` on strings: ss_compare (as regenerated from sizedstr.c after the repair of finding F57, df88bf4: the
+    deciding bytes are compared as `uint8_t`) is the specification's unsigned, memcmp-like lexicographic order — for ALL
+    byte lists, bytes >= 0x80 and embedded NUL included. -/
+theorem string_order_model_is_spec (a b : Bytes) : ss_compare a b = strCompare a b := by
   rw [SizedStr.ss_compare_eq, SizedStr.strCompare_eq_cmpWith]
   apply SizedStr.cmpWith_congr
-  intro x hx y hy
-  have h1 := ha x hx
-  have h2 := hb y hy
-  rw [UInt8.lt_iff_toNat_lt] at h1 h2
-  have e1 : SizedStr.scB x = (x.toNat : Int) := by unfold SizedStr.scB; split <;> simp at * <;> omega
-  have e2 : SizedStr.scB y = (y.toNat : Int) := by unfold SizedStr.scB; split <;> simp at * <;> omega
-  rw [e1, e2]
-  apply decide_eq_decide.mpr
-  rw [UInt8.lt_iff_toNat_lt]
-  omega
+  intro x _ y _
+  exact SizedStr.ucLt_eq x y
 
-open YaraModel.Gen.SizedStr in
-/-- F57 witness: "\xff" < "a" for ss_compare, "\xff" > "a" for the specification -/
+/-- regression witness for F57: the comparison by SIGNED char that ss_compare used to compute (frozen as
+    `SizedStr.ssCompareSignedOld`) puts "\xff" before "a"; the specification — and today's ss_compare — after it -/
 theorem string_order_signed_witness :
-    ss_compare [0xff] [0x61] = -1 ∧ strCompare [0xff] [0x61] = 1 := by decide
-
+    SizedStr.ssCompareSignedOld [0xff] [0x61] = -1 ∧ strCompare [0xff] [0x61] = 1 ∧
+    YaraModel.Gen.SizedStr.ss_compare [0xff] [0x61] = 1 := by decide
 
 open YaraModel.Gen.SizedStr in
 /-- the string primitives of the VM model (the C expressions of exec.c's string opcodes, as regenerated into Gen.VmOps) are
-    the regenerated sizedstr.c functions — so `compile_correct` speaks about them.  Ordering comparisons: for bytes < 0x80. -/
+    the regenerated sizedstr.c functions — so `compile_correct` speaks about them (ordering comparisons included, all byte lists). -/
 theorem vm_string_prims_are_sizedstr (a b : Int) :
     primPure "ss_contains(r1.ss,r2.ss)" [a, b] = C.b2i (ss_contains (decSS a) (decSS b)) ∧
     primPure "ss_icontains(r1.ss,r2.ss)" [a, b] = C.b2i (ss_icontains (decSS a) (decSS b)) ∧
@@ -357,17 +349,15 @@ theorem vm_string_prims_are_sizedstr (a b : Int) :
     primPure "(ss_icompare(r1.ss,r2.ss)==0)" [a, b] = C.b2i (decide (ss_icompare (decSS a) (decSS b) = 0)) ∧
     primPure "(ss_compare(r1.ss,r2.ss)==0)" [a, b] = C.b2i (decide (ss_compare (decSS a) (decSS b) = 0)) ∧
     primPure "(ss_compare(r1.ss,r2.ss)!=0)" [a, b] = C.b2i (decide (ss_compare (decSS a) (decSS b) ≠ 0)) ∧
-    ((∀ x, x ∈ decSS a → x < 128) → (∀ x, x ∈ decSS b → x < 128) →
-      primPure "(ss_compare(r1.ss,r2.ss)<0)" [a, b] = C.b2i (decide (ss_compare (decSS a) (decSS b) < 0)) ∧
-      primPure "(ss_compare(r1.ss,r2.ss)<=0)" [a, b] = C.b2i (decide (ss_compare (decSS a) (decSS b) ≤ 0)) ∧
-      primPure "(ss_compare(r1.ss,r2.ss)>0)" [a, b] = C.b2i (decide (ss_compare (decSS a) (decSS b) > 0)) ∧
-      primPure "(ss_compare(r1.ss,r2.ss)>=0)" [a, b] = C.b2i (decide (ss_compare (decSS a) (decSS b) ≥ 0))) := by
+    primPure "(ss_compare(r1.ss,r2.ss)<0)" [a, b] = C.b2i (decide (ss_compare (decSS a) (decSS b) < 0)) ∧
+    primPure "(ss_compare(r1.ss,r2.ss)<=0)" [a, b] = C.b2i (decide (ss_compare (decSS a) (decSS b) ≤ 0)) ∧
+    primPure "(ss_compare(r1.ss,r2.ss)>0)" [a, b] = C.b2i (decide (ss_compare (decSS a) (decSS b) > 0)) ∧
+    primPure "(ss_compare(r1.ss,r2.ss)>=0)" [a, b] = C.b2i (decide (ss_compare (decSS a) (decSS b) ≥ 0)) := by
   obtain ⟨h1, h2, h3, h4, h5, h6, h7, h8, h9⟩ := string_ops_model_is_spec (decSS a) (decSS b)
-  refine ⟨by rw [pp_contains, h1], by rw [pp_icontains, h2], by rw [pp_startswith, h3], by rw [pp_istartswith, h4],
-    by rw [pp_endswith, h5], by rw [pp_iendswith, h6], by rw [pp_iequals, h7], by rw [pp_eq, h8], by rw [pp_neq, h9], ?_⟩
-  intro ha hb
-  have h := string_order_model_is_spec_partial (decSS a) (decSS b) ha hb
-  refine ⟨by rw [pp_lt, h]; simp [cmpStr, cmpInt], by rw [pp_le, h]; simp [cmpStr, cmpInt],
+  have h := string_order_model_is_spec (decSS a) (decSS b)
+  exact ⟨by rw [pp_contains, h1], by rw [pp_icontains, h2], by rw [pp_startswith, h3], by rw [pp_istartswith, h4],
+    by rw [pp_endswith, h5], by rw [pp_iendswith, h6], by rw [pp_iequals, h7], by rw [pp_eq, h8], by rw [pp_neq, h9],
+    by rw [pp_lt, h]; simp [cmpStr, cmpInt], by rw [pp_le, h]; simp [cmpStr, cmpInt],
     by rw [pp_gt, h]; simp [cmpStr, cmpInt], by rw [pp_ge, h]; simp [cmpStr, cmpInt]⟩
 
 /-! ## (f) the match-list opcodes of exec.c as regenerated = the VM model's `step` on the (offset, length) views -/
